@@ -655,6 +655,22 @@ func init() {
 		return &TupleVal{vals: []Value{mkBV(8, 0), ex.stdGlobal(st, "io", "EOF")}}
 	}
 
+	intrinsics["(*bufio.Reader).Discard"] = func(ex *Exec, st *State, fr *Frame, c *ssa.Call, a []Value) Value {
+		p := a[0].(*Ptr)
+		rd := st.obj(p.obj).ext.(*readerExt)
+		n := a[1].(*Term)
+		avail := mkBin(OpSub, rd.src.len, rd.pos)
+		ex.oblige(st, mkCmp(OpSle, c64(0), n), "panic:discard", "bufio: negative count")
+		if ex.branch(st, mkCmp(OpUle, n, avail)) {
+			w := st.wobj(p.obj)
+			w.ext.(*readerExt).pos = mkBin(OpAdd, rd.pos, n)
+			return &TupleVal{vals: []Value{n, &IfaceVal{}}}
+		}
+		w := st.wobj(p.obj)
+		w.ext.(*readerExt).pos = rd.src.len
+		return &TupleVal{vals: []Value{avail, ex.stdGlobal(st, "io", "EOF")}}
+	}
+
 	// ------------------------------------------------------------------ bytes.Buffer + binary.Write
 	intrinsics["encoding/binary.Write"] = func(ex *Exec, st *State, fr *Frame, c *ssa.Call, a []Value) Value {
 		w := a[0].(*IfaceVal)
